@@ -177,7 +177,7 @@ def prove_group(cfile, g, workdir, canary=False):
             return res
     cmd += [cur]
     res['cmd'] = ' '.join(cmd[:-1]) + ' <instrumented goto binary of %s>' % g.harness
-    r = run(cmd, g.timeout, g.mem_gb)
+    r = run(cmd, max(g.timeout, int(os.environ.get('VERIF_MIN_TIMEOUT', '0') or 0)), g.mem_gb)
     res['secs'] = round(time.time() - t0, 2)
     for f in (gb0, base + '.1.gb', base + '.2.gb'):
         try:
